@@ -173,13 +173,18 @@ Definition fsm_input (rfc : bool) (c : cframe) (f : fsm) : fsm * list act :=
   end.
 
 (* variant: [vrep] session logic of /repo HEAD (true) or of the code before the C03 fixes (false); [vrfc] FSM table flavour *)
-Record vr := mkV5 { vrep : bool; vrfc : bool;
+Record vr := mkVr { vrep : bool; vrfc : bool;
                      vtd : bool;  (* the session is torn down when LCP leaves Opened on an authenticated link
                                      (e9950ea); false = the code before it *)
                      vhl : bool   (* an AAA answer that was matched to a session before that session was torn down is
                                      dropped when it gets the session lock (0709f1b); false = the code before it *);
                      vsf : bool   (* a dataplane failure report for a session that has already been through terminate() is
-                                     ignored (fixes/C03_pppoe_vpp_failure_after_teardown.patch); false = /repo HEAD *) }.
+                                     ignored (7b3d79c); false = the code before it *);
+                     vnm : bool   (* the local DHCPv6 provider keeps the pool name of a lease it re-reserves for the same
+                                     session and address (fixes/C03_dhcp6_rereserve_keeps_pool_name.patch); false = /repo HEAD *) }.
+Definition mkV5 (rep rfc td hl sf : bool) : vr := mkVr rep rfc td hl sf true.
+(* the code before 7b3d79c, everything else fixed: only in historical [_refuted] examples *)
+Definition pre_7b3d79c (rfc : bool) : vr := mkV5 true rfc true true false.
 Definition mkV4 (rep rfc td hl : bool) : vr := mkV5 rep rfc td hl true.
 Definition mkV3 (rep rfc td : bool) : vr := mkV4 rep rfc td td.
 Definition mkV (rep rfc : bool) : vr := mkV3 rep rfc true.
@@ -309,15 +314,20 @@ Definition resolve6 (pdf : bool) (m : mach) : mach * bool :=
     end
   end.
 (* plugins/dhcp6/local reserveIANA / reservePD with the resolved value *)
-Definition reserve6 (pdf named : bool) (s : sess) : sess :=
-  on_fam pdf (fun f => match xc f with Some a => mkF6 (xs f) (xc f) (Some (a, named)) (xn f) | None => f end) s.
+Definition reserve6 (keep pdf named : bool) (s : sess) : sess :=
+  on_fam pdf (fun f => match xc f with
+                       | Some a =>
+                         (* [keep]: a lease of the same address that knows its pool keeps knowing it *)
+                         let nm := named || (keep && match xl f with Some (b, true) => Nat.eqb a b | _ => false end) in
+                         mkF6 (xs f) (xc f) (Some (a, nm)) (xn f)
+                       | None => f end) s.
 Definition reserved6 (pdf : bool) (s : sess) : bool :=
   let f := fam_of pdf (v6 s) in
   match xc f, xl f with Some _, None => false | _, _ => true end.
 (* pppoe/dhcpv6.go forwardDHCPv6 for a client message that asks for IA_NA and IA_PD ([req]: REQUEST, else SOLICIT),
    with the local provider; bindDHCPv6 after a REPLY.  When neither an address nor a prefix can be resolved the
    provider's own (registry-independent) allocation would run: not modelled, the generator keeps one pool large. *)
-Definition dh6 (req : bool) (m : mach) : mach :=
+Definition dh6 (keep req : bool) (m : mach) : mach :=
   let '(m1, n_na) := resolve6 false m in
   let '(m2, n_pd) := resolve6 true m1 in
   let s := ms m2 in
@@ -325,7 +335,7 @@ Definition dh6 (req : bool) (m : mach) : mach :=
   | None, None => m2
   | _, _ =>
     if req then
-      let s1 := reserve6 true n_pd (reserve6 false n_na s) in
+      let s1 := reserve6 keep true n_pd (reserve6 keep false n_na s) in
       let old_na := xs (na (v6 s1)) in let new_na := xc (na (v6 s1)) in
       let old_pd := xs (pd (v6 s1)) in let new_pd := xc (pd (v6 s1)) in
       let s2 := on_fam true (fun f => mkF6 (xc f) (xc f) (xl f) (xn f))
@@ -337,7 +347,7 @@ Definition dh6 (req : bool) (m : mach) : mach :=
       match new_pd with Some _ => emit OSbPdAdd m6 | None => m6 end
     else
       let s1 := if reserved6 false s && reserved6 true s then s
-                else reserve6 true n_pd (reserve6 false n_na s) in
+                else reserve6 keep true n_pd (reserve6 keep false n_na s) in
       emit ODh6Adv (upd (fun _ => s1) m2)
   end.
 
@@ -541,9 +551,9 @@ Definition handle_frame (v : vr) (i : nat) (f : frame) (m : mach) : mach :=
   | FrIp6Junk => m
   (* dispatcher: network phase and IPv6CP Opened; pppoe/dhcpv6.go forwardDHCPv6: ipv6cpOpen; a REPLY to a
      REQUEST binds the address in the dataplane (bindDHCPv6) *)
-  | FrDh6Sol => if in_net (ph s) then match fs (ip6cp s) with Opened => if ip6cp_open s then dh6 false m else m | _ => m end else m
+  | FrDh6Sol => if in_net (ph s) then match fs (ip6cp s) with Opened => if ip6cp_open s then dh6 (vnm v) false m else m | _ => m end else m
   | FrDh6Req => if in_net (ph s) then match fs (ip6cp s) with
-                                     | Opened => if ip6cp_open s then dh6 true m else m
+                                     | Opened => if ip6cp_open s then dh6 (vnm v) true m else m
                                      | _ => m end else m
   | FrUnkProto => emit (OLcp cProtoRej) m
   | FrShort => m
@@ -625,10 +635,10 @@ Definition held_matches (v : vr) (k : nat) (s : sess) : bool :=
   pend_matches v k s || (negb (vhl v) && match k, pend s with S _, Some k' => Nat.eqb k k' | _, _ => false end).
 (* session.go onVPPSessionCreated(err) -> component.go tearDownSessionAfterVPPFailure: out of the indexes, Released, PADT
    (discovery egress, not a compared output), terminate().  The callback is the session's own method: it also runs for a
-   session that was torn down while the add was queued — on /repo HEAD ([vsf] = false) terminate() then runs a second time:
+   session that was torn down while the add was queued — before 7b3d79c ([vsf] = false) terminate() then ran a second time:
    Released and the dataplane delete are repeated, and its Release calls are no-ops only as long as nobody else has taken
-   the addresses since (what the generator guarantees; when somebody has, HEAD frees the OTHER subscriber's leases —
-   witness in notes/C03.md; the counter pools of this model cannot express that).  GLcpDown: the link is
+   the addresses since (when somebody had, the OTHER subscriber's leases were freed — witness in notes/C03.md; the counter
+   pools of this model cannot express that).  Since 7b3d79c the report is ignored for such a session.  GLcpDown: the link is
    over, the monitor forgets the accept. *)
 Definition sb_fail (v : vr) (m : mach) : mach :=
   if live (ms m) then emit GLcpDown (terminate (upd (set_live false) (emit OLifeR m)))
